@@ -5,7 +5,10 @@
 package kfl
 
 import (
+	"fmt"
 	"regexp"
+	"strings"
+	"text/scanner"
 	"time"
 
 	"github.com/alecthomas/participle/v2"
@@ -84,6 +87,43 @@ func Parse(text string) (expr *Expression, err error) {
 	if text == "" {
 		return
 	}
+	if err = checkNesting(text); err != nil {
+		return
+	}
 	err = parser.ParseString("", text, expr)
 	return
+}
+
+// MaxNesting is the deepest nesting of parentheses and of selector
+// continuations (`a[0].b`, `a.json().b`) that Parse accepts.
+const MaxNesting = 1000
+
+// checkNesting rejects queries that are nested deeper than MaxNesting.
+// The parser is recursive descent: every level costs several kilobytes of
+// stack, and exhausting the goroutine stack is a fatal error that cannot be
+// recovered from, so a query of a few hundred kilobytes of "(" would
+// otherwise terminate the process.
+func checkNesting(text string) error {
+	var s scanner.Scanner
+	s.Init(strings.NewReader(text))
+	s.Error = func(*scanner.Scanner, string) {} // syntax errors are reported by the parser
+	depth, continuations := 0, 0
+	prev := ""
+	for tok := s.Scan(); tok != scanner.EOF; tok = s.Scan() {
+		cur := s.TokenText()
+		switch {
+		case cur == "(":
+			depth++
+		case cur == ")":
+			depth--
+		case cur == "." && (prev == ")" || prev == "]"):
+			// the rest of the expression is nested below the selector
+			continuations++
+		}
+		if depth+continuations > MaxNesting {
+			return fmt.Errorf("%s: query is nested deeper than %d levels", s.Pos(), MaxNesting)
+		}
+		prev = cur
+	}
+	return nil
 }
